@@ -1370,7 +1370,11 @@ uint64_t gen_enum_count(const std::string &prop) { return prop == "C10" ? 63 * 1
 
 Plan gen_plan(const std::string &prop, uint64_t seed, uint64_t idx, int qcap)
 {
-        Gen g(mix_seed(seed, idx * 2654435761ULL + 17));
+        // every profile explores its own plans: the profile name is part of the seed
+        uint64_t ph = 1469598103934665603ULL;
+        for (char ch : prop)
+                ph = (ph ^ (unsigned char)ch) * 1099511628211ULL;
+        Gen g(mix_seed(seed ^ ph, idx * 2654435761ULL + 17));
         knobs_for(prop, g.K, g.r);
         g.p.prop = prop;
         g.p.seed = seed;
